@@ -39,6 +39,7 @@ def recognise(name, cfg="A"):
         return Verdict("invalid", why="pattern")
     rest = hs[len(pat):]
     mods = []
+    raw = []
     unspecified = False
     if rest:
         for m in rest.split("+"):
@@ -61,11 +62,14 @@ def recognise(name, cfg="A"):
                 mod = "psk%d" % val
             else:
                 return Verdict("invalid", why="modifier")
+            if m in raw:
+                return Verdict("invalid", why="the same modifier twice (literally)")
             if mod in mods:
                 if unspecified:
                     return Verdict("unspecified", why="duplicate through a non-canonical numeral")
                 return Verdict("invalid", why="duplicate modifier")
             mods.append(mod)
+            raw.append(m)
     kem = None
     if feat["hfs"]:
         if "+" in dh:
